@@ -956,6 +956,33 @@ func TestC09(t *testing.T) {
 					}
 				}
 			}
+			// views: a transaction in which no value moved and every precompile call the EVM kept belongs to a method that
+			// declares itself read-only must leave every Cosmos store as it was
+			if real.status == "ok" {
+				touched, views := false, []string{}
+				for i, n := range fn {
+					if !trc.tr.Kept(i) {
+						continue
+					}
+					if n.Kind.HasValue() && n.Value != nil && n.Value.Sign() > 0 {
+						touched = true
+					}
+					if n.Op == "pre" {
+						if e.writer[p.meta[n.ID].method] {
+							touched = true
+						} else {
+							views = append(views, p.meta[n.ID].method)
+						}
+					}
+				}
+				if ch := hx.DiffDump(before, real.dump); !touched && len(views) > 0 && len(ch) > 0 {
+					sort.Strings(views)
+					out.Violate(fmt.Sprintf("read-only precompile methods changed Cosmos stores %v: the transaction kept only calls of %v and moved no value", ch, views))
+				}
+				if !touched && len(views) > 0 {
+					out.Count("views-only-transaction")
+				}
+			}
 			if refs != "same" {
 				out.Violate(fmt.Sprintf("Cosmos state after the transaction differs from the effects of exactly the kept precompile calls (%s); status=%s kept=%v undone=%v; precompile calls that failed after paying RequiredGas: %v", refs, real.status, trc.kept, dm, failedInside(p, fn, trc.tr, e)))
 			}
